@@ -222,6 +222,9 @@ def diff_tables(a, b, limit=3):
 def run_inproc(spec, result_file=None, seed_kw=True, log=None, config=(1, 0, 0)):
     """Reference execution: real Experiment.run, in-process, outside any simulation."""
     sink = log if log is not None else ListSinkH()
+    from sim.world import install, reset_coba_globals
+    install()
+    reset_coba_globals()        # a reference run models a fresh interpreter: no process-global leftovers from earlier runs
     quiet_context(sink)
     exp, objs = build_experiment(spec)
     kw = dict(processes=config[0], maxchunksperchild=config[1], maxtasksperchunk=config[2], quiet=spec.get("quiet", True))
